@@ -14,9 +14,16 @@
      c.f              "none" or the one field changed after the `old` signatures were made
      c.pay            "self": the sender pays the gas | "payer": another account (configuration c.pcfg, signatures
                       c.psigs) pays; then the sender signs everything but the gas terms and the payer signs the
-                      sender signatures + gasPrice + gasLimit
+                      sender signatures + gasPrice + gasLimit | "own": the same reimbursed FORM, but the account named
+                      as gas payer is the sender account itself (c.psigs are then signatures of holders of the sender
+                      account: by = 0 its own key, i its registered signer i; c.pcfg repeats c.cfg)
      c.box            "none" | "ok": the transaction travels inside a box signed by the box sender | "bad": the box
-                      itself is signed by a foreign key
+                      itself is signed by a foreign key | "old": the box sender signed BEFORE field c.f of the
+                      sub-transaction was changed (c.f = "sigs": before its first sender signature was replaced); the
+                      box data now carries the changed sub-transaction (re-signed by its own holders or not: c.sigs)
+     c.label          the output-only "hash" member of the sub-transaction's JSON form inside the box data:
+                      "true" its real hash (what the node's encoder writes) | "none" absent | "kept" the hash of the
+                      sub-transaction as it was before the change | "wrong" an arbitrary hash
      c.kind           transfer / vote / signers (re-configuration of the account's signers to c.ncfg) / asset
    Authorized is the property's notion (sets of distinct authorising holders).  Accepts is the decision procedure
    of the node (tx_processor.go verifyTransactionSigs / checkSignersWeight): recover every signature over the
@@ -67,21 +74,30 @@ RECURSIVE SumW(_, _)
 SumW(cfg, P) == IF P = {} THEN 0 ELSE LET p == CHOOSE x \in P : TRUE IN Weight(cfg, p) + SumW(cfg, P \ {p})
 \* the holders P (a SET of distinct principals) authorise for an account with configuration cfg
 HolderAuth(cfg, P) == IF cfg = <<>> THEN Own \in P ELSE SumW(cfg, P) >= Threshold
-SenderScope(c) == IF c.pay = "self" THEN Fields ELSE Fields \ GasTerms
+Reimbursed(c) == c.pay # "self"                \* reimbursed form: the sender signatures leave the gas terms to the payer signatures
+PaidBySender(c) == c.pay \in {"self", "own"}   \* whose balance pays the gas
+\* the account whose holders have to sign as gas payer
+PayCfg(cfg, c) == IF c.pay = "own" THEN cfg ELSE c.pcfg
+SenderScope(c) == IF Reimbursed(c) THEN Fields \ GasTerms ELSE Fields
+\* a box sender signs the identities (content and signatures) of the sub-transactions
+BoxScope == Fields \cup {"sigs"}
 \* a signature made before field f changed still signs the present content iff f is outside what it covers
 Counts(scope, f, s) == ~s.old \/ f \notin scope
 Signers(scope, f, sigs) == {sigs[i].by : i \in {j \in 1..Len(sigs) : Counts(scope, f, sigs[j])}}
 SenderOK(cfg, c) == HolderAuth(cfg, Signers(SenderScope(c), c.f, c.sigs))
 \* a gasPayer field changed after signing names an account whose holders signed nothing
-PayerOK(c) == c.f # "gasPayer" /\ (c.pay = "self" \/ HolderAuth(c.pcfg, Signers(PayerScope, c.f, c.psigs)))
-Authorized(cfg, c) == SenderOK(cfg, c) /\ PayerOK(c) /\ c.box # "bad"
+PayerOK(cfg, c) == c.f # "gasPayer" /\ (~Reimbursed(c) \/ HolderAuth(PayCfg(cfg, c), Signers(PayerScope, c.f, c.psigs)))
+\* the box sender authorised exactly the sub-transaction that is carried (whatever its JSON form claims about itself)
+BoxOK(c) == c.box \in {"none", "ok"} \/ (c.box = "old" /\ c.f \notin BoxScope)
+Authorized(cfg, c) == SenderOK(cfg, c) /\ PayerOK(cfg, c) /\ BoxOK(c)
 \* every signature is a valid one of a distinct holder that carries authority: what an honest wallet produces
 CanonSigs(cfg, scope, f, sigs) ==
   /\ \A i \in 1..Len(sigs) : Counts(scope, f, sigs[i]) /\ (IF cfg = <<>> THEN sigs[i].by = Own ELSE sigs[i].by \in 1..Len(cfg))
   /\ \A i, j \in 1..Len(sigs) : i # j => sigs[i].by # sigs[j].by
 Canonical(cfg, c) == /\ CanonSigs(cfg, SenderScope(c), c.f, c.sigs)
-                     /\ (c.pay = "payer" => CanonSigs(c.pcfg, PayerScope, c.f, c.psigs))
+                     /\ (Reimbursed(c) => CanonSigs(PayCfg(cfg, c), PayerScope, c.f, c.psigs))
                      /\ (c.pay = "self" => c.psigs = <<>>)
+                     /\ c.label \in (IF c.box = "none" THEN {"true"} ELSE {"true", "none"})   \* (a wallet need not send the output-only member)
 
 (* ------------------------------------------------------------------ the node's decision procedure *)
 Garbage == 998     \* a signature over other content recovers to an address nobody holds
@@ -93,19 +109,30 @@ CheckWeight(D, cfg, rec) ==
           THEN SumSeq([i \in 1..Len(rec) |-> Weight(cfg, rec[i])]) >= Threshold     \* weight added per signature
           ELSE SumW(cfg, Range(rec)) >= Threshold                                   \* weight added per distinct signer
 WellFormed(sigs) == \A i \in 1..Len(sigs) : sigs[i].by # Junk
+\* Two wrong decision procedures, used only by the negative controls of the design run (never allowed on real traces):
+\*   Neg_OwnPayerUnchecked  the payer signatures are looked at only when the named payer is another account
+\*   Neg_BoxTrustsLabel     the box signing hash is built from what the sub-transaction's JSON form claims its hash to be
+BoxCheck(D, c) ==
+  IF "Neg_BoxTrustsLabel" \notin D \/ c.box \in {"none", "bad"} THEN BoxOK(c)
+  ELSE LET claimsCarried == c.label \in {"true", "none"}  claimsFormer == c.label = "kept"  same == c.f \notin BoxScope IN
+       IF c.box = "ok" THEN claimsCarried \/ (claimsFormer /\ same) ELSE claimsFormer \/ (claimsCarried /\ same)
 AcceptsD(D, cfg, c) ==
-  /\ WellFormed(c.sigs) /\ WellFormed(c.psigs)        \* recoverSigners fails on the first signature that does not recover
-  /\ IF Len(c.psigs) >= 1 THEN CheckWeight(D, c.pcfg, Recovered(PayerScope, c.f, c.psigs)) ELSE c.pay = "self"
+  /\ WellFormed(c.sigs) /\ (WellFormed(c.psigs) \/ ("Neg_OwnPayerUnchecked" \in D /\ c.pay = "own"))   \* recoverSigners fails on the first signature that does not recover
+  /\ IF Len(c.psigs) >= 1 THEN \/ CheckWeight(D, PayCfg(cfg, c), Recovered(PayerScope, c.f, c.psigs))
+                                \/ ("Neg_OwnPayerUnchecked" \in D /\ c.pay = "own")
+                           ELSE c.pay = "self"
   /\ c.f # "gasPayer"                      \* the named payer is another (plain) account: nobody signed for it
   /\ CheckWeight(D, cfg, Recovered(SenderScope(c), c.f, c.sigs))
-  /\ c.box # "bad"
+  /\ BoxCheck(D, c)                        \* the box signing hash is recomputed from the carried sub-transaction; c.label is not looked at
 Accepts(cfg, c) == AcceptsD(Dev, cfg, c)
 
 (* ------------------------------------------------------------------ the case space *)
 NoCfg == <<>>
 \* c.cfg: the sender configuration the case is meant for (the monitor judges against the really registered signers)
 Case(cfg, kind, sigs, f, pay, pcfg, psigs, box, ncfg) ==
-  [cfg |-> cfg, kind |-> kind, sigs |-> sigs, f |-> f, pay |-> pay, pcfg |-> pcfg, psigs |-> psigs, box |-> box, ncfg |-> ncfg]
+  [cfg |-> cfg, kind |-> kind, sigs |-> sigs, f |-> f, pay |-> pay, pcfg |-> pcfg, psigs |-> psigs, box |-> box, ncfg |-> ncfg, label |-> "true"]
+Labelled(c, lb) == [c EXCEPT !.label = lb]
+Labels == {"true", "none", "kept", "wrong"}
 NoCase == Case(NoCfg, "none", <<>>, "none", "self", NoCfg, <<>>, "none", NoCfg)
 Plain(cfg, kind, sigs) == Case(cfg, kind, sigs, "none", "self", NoCfg, <<>>, "none", NoCfg)
 By(cfg) == {Own, Foreign} \cup 1..Len(cfg)
@@ -126,25 +153,43 @@ TamperCases(cfg) ==
 SenderVariants(cfg, o) == {SigsOf(Full(cfg), o), <<Sig(Foreign, 0, o)>>}
                           \cup (IF cfg = <<>> THEN {} ELSE {<<Sig(1, 0, o), Sig(1, 1, o)>>, <<Sig(1, 0, o)>>})
 PayerSigs(pcfg, f) == {Sig(b, v, o) : b \in By(pcfg), v \in {0, 1}, o \in (IF f = "none" THEN {FALSE} ELSE BOOLEAN)}
+\* who is named as payer: another account of every payer configuration, or the sender account itself
+PayForms(cfg) == {<<"payer", pc>> : pc \in PayCfgs} \cup {<<"own", cfg>>}
 PayerCases(cfg) ==
   IF cfg \notin PaySenders THEN {} ELSE
-  UNION {UNION {{Case(cfg, "transfer", ss, f, "payer", pc, ps, "none", NoCfg) :
-                   ss \in SenderVariants(cfg, f # "none"), ps \in SeqsUpTo(PayerSigs(pc, f), 2)} : pc \in PayCfgs} : f \in PayFields \cup {"none"}}
+  UNION {UNION {{Case(cfg, "transfer", ss, f, p[1], p[2], ps, "none", NoCfg) :
+                   ss \in SenderVariants(cfg, f # "none"), ps \in SeqsUpTo(PayerSigs(p[2], f), 2)} : p \in PayForms(cfg)} : f \in PayFields \cup {"none"}}
 PayerVariants(pc) == {SigsOf(Full(pc), FALSE), <<>>, <<Sig(Foreign, 0, FALSE)>>}
                      \cup (IF pc = <<>> THEN {} ELSE {<<Sig(1, 0, FALSE), Sig(1, 1, FALSE)>>})
 \* 3b. malformed signature bytes among at most two signatures
 JunkCases(cfg) == {Plain(cfg, "transfer", s) : s \in SeqsUpTo(FreshSigs(cfg) \cup {Sig(Junk, 0, FALSE), Sig(Junk, 1, FALSE)}, 2)
                                                       \ SeqsUpTo(FreshSigs(cfg), 2)}
+\* 4a. the box data is not what the node's encoder would have written for the box that was signed
+BoxFields == (TamperFields \ {"version"}) \cup {"sigs"}
+BoxForgeCases(cfg) ==
+  \* the sub-transaction changed after ("old") / before ("ok") the box sender signed; re-signed by all its holders (a validly signed
+  \* substitute) or not; labelled with its real hash, no hash, the hash of the sub-transaction it replaces, an arbitrary hash
+  {Labelled(Case(cfg, "transfer", SigsOf(Full(cfg), o), f, "self", NoCfg, <<>>, b, NoCfg), lb) :
+     o \in BOOLEAN, f \in BoxFields, b \in {"old", "ok"}, lb \in Labels} \cup
+  \* unchanged sub-transaction (properly signed / signed by a foreign key), forged label, box signed by its sender / a foreign key
+  {Labelled(Case(cfg, "transfer", s, "none", "self", NoCfg, <<>>, b, NoCfg), lb) :
+     s \in {SigsOf(Full(cfg), FALSE), <<Sig(Foreign, 0, FALSE)>>}, b \in {"ok", "bad"}, lb \in {"none", "wrong"}} \cup
+  \* reimbursed sub-transaction whose payer changed the gas terms (and re-signed, or not) after the box sender signed
+  UNION {{Labelled(Case(cfg, "transfer", SigsOf(Full(cfg), TRUE), f, p[1], p[2], SigsOf(Full(p[2]), o), "old", NoCfg), lb) :
+            o \in BOOLEAN, f \in BoxFields \cap GasTerms, lb \in Labels} : p \in PayForms(cfg)}
 \* 4. inside a box (also: a reimbursed transaction inside a box)
 BoxCases(cfg) ==
   IF cfg \notin BoxCfgs THEN {} ELSE
   {Case(cfg, "transfer", s, "none", "self", NoCfg, <<>>, b, NoCfg) : s \in SeqsUpTo(FreshSigs(cfg), 2), b \in {"ok", "bad"}} \cup
   {Case(cfg, "transfer", SigsOf(Full(cfg), TRUE), f, "self", NoCfg, <<>>, "ok", NoCfg) : f \in TamperFields \ {"version"}} \cup   \* (a box with a sub-transaction of another version does not parse)
-  UNION {{Case(cfg, "transfer", ss, "none", "payer", pc, ps, "ok", NoCfg) : ss \in SenderVariants(cfg, FALSE), ps \in PayerVariants(pc)} : pc \in PayCfgs}
+  UNION {{Case(cfg, "transfer", ss, "none", p[1], p[2], ps, "ok", NoCfg) : ss \in SenderVariants(cfg, FALSE), ps \in PayerVariants(p[2])} : p \in PayForms(cfg)} \cup
+  BoxForgeCases(cfg)
 \* 5. other kinds of transaction
 KindCases(cfg) ==
   {Plain(cfg, k, s) : k \in Kinds, s \in SeqsUpTo(FreshSigs(cfg), 2)} \cup
-  {Case(cfg, k, SigsOf(Full(cfg), TRUE), f, "self", NoCfg, <<>>, "none", NoCfg) : k \in Kinds \cap {"vote"}, f \in TamperFields \cap {"to", "data", "type", "amount"}}
+  {Case(cfg, k, SigsOf(Full(cfg), TRUE), f, "self", NoCfg, <<>>, "none", NoCfg) : k \in Kinds \cap {"vote"}, f \in TamperFields \cap {"to", "data", "type", "amount"}} \cup
+  \* the account reimburses itself: honest / gas terms changed after every signature was made
+  {Case(cfg, k, SigsOf(Full(cfg), f # "none"), f, "own", cfg, SigsOf(Full(cfg), f # "none"), "none", NoCfg) : k \in Kinds, f \in {"none"} \cup (TamperFields \cap GasTerms)}
 \* 6. the account's signers are replaced (the decision is taken against the signers registered BEFORE the transaction)
 ReconfCases(cfg) ==
   IF cfg \notin ReconfCfgs THEN {} ELSE
@@ -216,7 +261,17 @@ CTamperFalsifies(k, c, a) ==
   c.f \in SenderScope(c) /\ (\A i \in 1..Len(c.sigs) : c.sigs[i].old) => ~a
 \* gas terms (or sender signatures) changed after ALL payer signatures were made: ineffective; no payer signature: ineffective
 CPayerBinds(k, c, a) ==
-  c.pay = "payer" /\ (c.psigs = <<>> \/ (c.f \in PayerScope /\ \A i \in 1..Len(c.psigs) : c.psigs[i].old)) => ~a
+  Reimbursed(c) /\ (c.psigs = <<>> \/ (c.f \in PayerScope /\ \A i \in 1..Len(c.psigs) : c.psigs[i].old)) => ~a
+\* whoever pays: a changed field has an effect only under a signature made AFTER the change that covers it (no field is left
+\* to nobody - in particular the gas terms of a reimbursed transaction, also when the sender reimburses itself)
+CChangeCovered(k, c, a) ==
+  a /\ c.f \in Fields => \/ c.f \in SenderScope(c) /\ \E i \in 1..Len(c.sigs) : ~c.sigs[i].old
+                         \/ c.f \in PayerScope /\ Reimbursed(c) /\ \E i \in 1..Len(c.psigs) : ~c.psigs[i].old
+\* a sub-transaction changed (or its signatures replaced) after the box sender signed makes the box ineffective
+CBoxBinds(k, c, a) == c.box = "old" /\ c.f \in BoxScope => ~a
+\* what the JSON form of a sub-transaction claims its hash to be is not content: it neither grants nor removes authority
+CLabelIrrelevant(k, c, a) == /\ Authorized(k, c) <=> Authorized(k, Labelled(c, "true"))
+                             /\ a <=> Accepts(k, Labelled(c, "true"))
 \* the threshold is exact
 CThresholdExact(k, c, a) ==
   k # <<>> /\ c.f = "none" /\ c.pay = "self" /\ c.box = "none" /\ WellFormed(c.sigs) =>
@@ -234,4 +289,7 @@ TamperFalsifies == [][OnOffer(CTamperFalsifies)]_vars
 PayerBinds == [][OnOffer(CPayerBinds)]_vars
 ThresholdExact == [][OnOffer(CThresholdExact)]_vars
 Reconf == [][OnOffer(CReconf)]_vars
+ChangeCovered == [][OnOffer(CChangeCovered)]_vars
+BoxBinds == [][OnOffer(CBoxBinds)]_vars
+LabelIrrelevant == [][OnOffer(CLabelIrrelevant)]_vars
 ====
